@@ -6,4 +6,5 @@ export TMVERIF_REPO="${TMVERIF_REPO:-/repo}"
 export PYTHONPATH="$TMVERIF_REPO/lib/python:$HERE/harness"
 export PYTHONDONTWRITEBYTECODE=1
 /venv/bin/python "$HERE/harness/extract.py"
+python3 "$HERE/tools/gen_root.py"
 cd "$HERE/lean" && lake build
